@@ -474,8 +474,9 @@ func (w *World) Judge(conn int, m wire.Msg) Verdict {
 	case wire.Tread:
 		f := need(0)
 		cnt := u64(m.F[2])
-		if cnt > 4<<20 {
-			// refuse or shorten: the statements do not say
+		if cnt > 4<<20 && f != nil {
+			// refuse or shorten: the statements do not say. (An unbound fid
+			// is EBADF whatever the count: that they do say.)
 			return Verdict{DontCare: true}
 		}
 		if f != nil {
